@@ -3,6 +3,7 @@ import Pcore.Proofs.FilesOnce
 import Pcore.Proofs.FilesPath
 import Pcore.Proofs.FilesGlobal
 import Pcore.Proofs.FilesModule
+import Pcore.Proofs.FilesError
 /-!
 # C15 — File-based loading maps names to definition files faithfully
 
@@ -37,6 +38,13 @@ Full statement / proved / missing
   returns — fix 80f753b) is evaluated symbolically; found ⇔ the module's file defines the name, errors name that file,
   the file is the only read.
   `C15_absent_module`: no file anywhere on the route ⇒ `notfound`, no read, placeholders only.
+* `C15_error_no_binding` (proved, full: every loader, context loader, state and fuel) — `instantiate` of a defective file
+  (misnamed, malformed, no definition, unreadable) panics with the error that names the file and leaves the state changed
+  by the read and the placeholder of the REQUESTED name only: no loader gets a definition, in particular not for the name
+  a misnamed file declares.  `C15_error_state_global`: the same for a whole lookup through the global loader.
+  `C15_absent_stays_absent` (proved, full): a name whose key has no source (no core type, no file where the index points
+  for it, no member of a type set that sits at its own place) is never answered `found`, at any position of any lookup
+  sequence — whatever was looked up, found or reported before.
 * missing: the "if" half for deeper names, type sets and ancestors that exist (type-set parent search); it is false as
   stated for layouts that define one name twice (`C15_duplicate_redefine`, known finding C15-duplicate-redefine) and the
   error of a misnamed file carries no line (`C15_misnamed_no_line`, known finding C15-misnamed-no-line).  Termination
@@ -374,6 +382,86 @@ example : partsOf ["MYMOD", "thing"] = some ["mymod", lowerS "thing"] ∧ sysLoa
     partsOf ["Mymod"] = some ["mymod"] ∧ idx (modCfg (.m "mymod")) (.m "mymod") ["init_typeset"] = [] ∧
     idx (modCfg (.m "mymod")) (.m "mymod") (keyOf ["Mymod", "Nope"]) = [] ∧
     (loadS 9 (modCfg (.m "mymod")) {} ["Mymod", "Nope"]).1 = .notfound := by
+  decide
+
+/-! ## error lookups bind nothing; a name without a source stays absent whatever happened before -/
+
+theorem C15_error_no_binding (cfg : Cfg) (n : Nat) (l : Lid) (name : Name) (p : Path) (ps : List Path) (s : St) (b : Body)
+    (hb : bodyAt cfg.tree p = some b) (hd : Defective b name) (hget : s.get l (keyOf name) = none) :
+    instantiate (n+2) cfg l name (p :: ps) s = .fail (defectErr p b) ((s.put l (keyOf name) none).addRead p) ∧
+    (∀ l' k' d, ((s.put l (keyOf name) none).addRead p).get l' k' = some (some d) → s.get l' k' = some (some d)) := by
+  refine ⟨instantiate_defective cfg n l name p ps s b hb hd hget, ?_⟩
+  intro l' k' d h
+  rw [get_addRead, get_put] at h
+  by_cases hk : (l', k') = (l, keyOf name)
+  · rw [if_pos hk] at h; cases h
+  · rw [if_neg hk] at h; exact h
+
+/-- a whole lookup through the global loader that meets a defective first origin: the error, and the exact state left —
+    the placeholder of the requested name and the read, nothing else -/
+theorem C15_error_state_global (cfg : Cfg) (hv : cfg.via = .g) (name : Name) (s : St) (n : Nat) (p : Path) (ps : List Path)
+    (b : Body) (hsys : sysLoad name = none) (hget : s.get .g (keyOf name) = none)
+    (hi : idx cfg .g (keyOf name) = p :: ps) (hb : bodyAt cfg.tree p = some b) (hd : Defective b name) :
+    loadS (n+7) cfg s name = (.failed (defectErr p b), (s.put .g (keyOf name) none).addRead p) :=
+  global_defective_state cfg hv name s n p ps b hsys hget hi hb hd
+
+/-- the key has no source: no core type, no file where the index points for it, no type set (at its own place) listing it -/
+def NoSource (cfg : Cfg) (k : Key) : Prop :=
+  (∀ e ∈ staticTypes, e.1 ≠ k) ∧ (∀ p, ¬ At cfg p k) ∧
+  (∀ p nm ts t, bodyAt cfg.tree p = some (.typ .typeset nm ts) → t ∈ ts → keyOf (nm ++ [t]) = k → ¬ At cfg p (keyOf nm))
+
+theorem C15_absent_stays_absent (cfg : Cfg) (fuel : Nat) (names : List Name) (i : Nat) (name : Name)
+    (hno : NoSource cfg (keyOf name)) (hn : names[i]? = some name) (d : Def) :
+    (runLoads fuel cfg {} names).1[i]? ≠ some (Outcome.found d) := by
+  intro h
+  obtain ⟨name', hn', hk, hj⟩ := C15_name_fresh cfg fuel names i d h
+  rw [hn] at hn'
+  cases hn'
+  obtain ⟨hstatic, hat, hts⟩ := hno
+  cases hj with
+  | inl hs =>
+    obtain ⟨e, he, hed⟩ := hs
+    have hkeys : ∀ e ∈ staticTypes, keyOf e.2.name = e.1 := by decide
+    apply hstatic e he
+    rw [← hkeys e he, hed, hk]
+  | inr hf =>
+    obtain ⟨p, b, hb, hcase⟩ := hf
+    cases hcase with
+    | inl h1 =>
+      obtain ⟨ts, _, hat1⟩ := h1
+      rw [hk] at hat1
+      exact hat p hat1
+    | inr h2 =>
+      cases h2 with
+      | inl h3 =>
+        obtain ⟨nm, ts, t, j, hb', ht, hd, hat3⟩ := h3
+        rw [hb'] at hb
+        refine hts p nm ts t hb ht ?_ hat3
+        rw [← hk, hd]
+      | inr h4 =>
+        obtain ⟨_, _, hat4⟩ := h4
+        rw [hk] at hat4
+        exact hat p hat4
+
+def wrongCfg : Cfg :=
+  { mods := [], via := .g,
+    tree := [(["env", "types", "real.pp"], .typ .object ["Real"] []),
+             (["env", "types", "wrong.pp"], .typ .alias ["Other"] []),
+             (["env", "types", "wrong2.pp"], .typ .alias ["Real"] [])] }
+
+/-- non-vacuity: `Other` (declared by the misnamed `wrong.pp`, no file of its own) has no source and stays absent after
+    the error; `Real` (declared by the misnamed `wrong2.pp` too) is answered from `real.pp` in both orders, and the error
+    of the misnamed file stays the same -/
+example : Defective (.typ .alias ["Other"] []) ["Wrong"] ∧
+    (runLoads 9 wrongCfg {} [["Other"], ["Wrong"], ["Other"], ["Wrong2"], ["Real"]]).1 =
+      [.notfound, .failed (.reported "PCORE_WRONG_DEFINITION" (some ["env", "types", "wrong.pp"]) 0), .notfound,
+       .failed (.reported "PCORE_WRONG_DEFINITION" (some ["env", "types", "wrong2.pp"]) 0), .found ⟨.object, ["Real"]⟩] ∧
+    (runLoads 9 wrongCfg {} [["Real"], ["Wrong2"], ["Real"]]).1 =
+      [.found ⟨.object, ["Real"]⟩, .failed (.reported "PCORE_WRONG_DEFINITION" (some ["env", "types", "wrong2.pp"]) 0),
+       .found ⟨.object, ["Real"]⟩] ∧
+    (runLoads 9 wrongCfg {} [["Wrong2"], ["Real"]]).2.reads = [["env", "types", "wrong2.pp"], ["env", "types", "real.pp"]] := by
+  refine ⟨?_, by decide, by decide, by decide⟩
+  show keyOf ["Other"] ≠ keyOf ["Wrong"]
   decide
 
 /-! ## negation witnesses for the known findings -/
